@@ -20,6 +20,8 @@ From MV Require Import Doc.TopProofs.
 From MV Require Import Doc.Final.
 From MV Require Import Doc.Total.
 From MV Require Import Doc.Backends.
+From MV Require Import Gen.RenderSrc.
+From MV Require Import Doc.RenderSrcProofs.
 Import ListNotations.
 
 (* The two semantics of the renderer's instruction set agree.  For every program, every state whose
@@ -105,6 +107,29 @@ Theorem C02_faithful_total : forall (D : str -> str) B C OR ts,
   (exists e, render_doc B C OR ts = Bad e /\ reg_fail C OR e).
 Proof. exact faithful_total. Qed.
 Print Assumptions C02_faithful_total.
+
+(* SOURCE-TRANSLATION TIE (round 3).  render_doc_src is the renderer assembled from Gen/RenderSrc.v, which
+   gen/c02_pysrc.py regenerates from base.py on every run: copy_attributes (the loop over token.attrs),
+   renderInlineAsText, render_paragraph / em / strong / code_inline / bullet_list / ordered_list / list_item /
+   blockquote / hr / hardbreak / softbreak / s / text / math_inline / link_url / image, statement by statement
+   (the other methods - heading, table, clean_astext, current_node_context, the dispatch loops - are pinned by
+   the hash of their source).  An edit of one of these Python methods changes the regenerated definition; the
+   equalities of Doc/RenderSrcProofs.v (regenerated = hand-written, by conversion) and hence this theorem are
+   re-checked against it. *)
+Theorem C02_faithful_src : forall (D : str -> str) B C OR ts doc ws,
+  O_lexer_concat OR -> O_canon D OR -> O_no_files OR ->
+  static_forest B C OR ts = true ->
+  render_doc_src B C OR ts = Good (doc, ws) ->
+  has_dropped doc = false ->
+  skel_node D doc = skel_toks D B C OR ts.
+Proof. exact faithful_src. Qed.
+Print Assumptions C02_faithful_src.
+
+(* the alt text of an image: the regenerated renderInlineAsText is the function the specification uses
+   (text leaves, a soft break as a newline, everything else by its children) *)
+Theorem C02_image_alt_src : forall r, inline_as_text_src r = inline_as_text r.
+Proof. exact image_alt_src. Qed.
+Print Assumptions C02_image_alt_src.
 
 (* A dynamic token is spliced exactly once, at its own position: the document that consists of one directive
    fence / role / substitution / front-matter token is the image of the nodes of that run, in order, nothing
